@@ -1,6 +1,8 @@
 (* C16/Model.v — HttpServer: what one request is answered with (processHttpRequest), and how the answers of
-   one connection are sequenced (handleIncomingData extracts requests in order on the I/O thread and hands each
-   to the worker pool; every worker ends with ONE sendAsync of the whole response, then possibly a close). *)
+   one connection are sequenced (handleIncomingData extracts requests in order on the I/O thread; `workers` of
+   them may be in the pool at the same time - 1 since the repair of F6a: the next request of a connection is
+   handed to the pool by onRequestFinished -; every worker ends with ONE sendAsync of the whole response, then
+   possibly a close). *)
 From Coq Require Export List NArith Lia Bool.
 Export ListNotations.
 Local Open Scope N_scope.
